@@ -329,3 +329,27 @@ func VerifC17ShellFormatNames() {
 	verifAssert(okv && safe && verifEqStr(val, v), "C17/shell-value-expands-to-other-value name="+name)
 	verifCover("C17/shellnames/end")
 }
+
+// VerifC17NUL: no shell word or variable can hold a NUL byte (POSIX shells cut or drop it), so a value that contains
+// one has no faithful shell form: @sh and -o=shell must report an error for it instead of writing bytes that expand
+// to another value; values without NUL are encoded.
+func VerifC17NUL() {
+	v := verifStr("v", 2, "\x00\x00az''")
+	hasNul := strings.IndexByte(v, 0) >= 0
+	var sb strings.Builder
+	var err error
+	which := verifChoice("encoder", 2)
+	if which == 0 {
+		err = (&shEncoder{}).Encode(c17Writer{&sb}, vDoc(vStr(v)))
+	} else {
+		err = NewShellVariablesEncoder().Encode(c17Writer{&sb}, vDoc(vMap(vStr("k"), vStr(v))))
+	}
+	label := []string{"@sh", "-o=shell"}[which]
+	if hasNul {
+		verifAssert(err != nil, "C17/value-with-NUL-encoded-for-the-shell "+label)
+		verifCover("C17/nul/with")
+	} else {
+		verifAssert(err == nil, "C17/shell-encode-error "+label)
+	}
+	verifCover("C17/nul/end")
+}
